@@ -138,7 +138,12 @@ def gen_scenario(rng):
                 typ = rng.choice(["con", "non"])
             if abs(mid - of) % 65536 < 16:
                 cls.add("mid-near-own")
-            if rng.random() < 0.15:
+            # parallel copies of a NON-confirmable message whose ID sits on the guard boundary of checkMyMessageID are left out:
+            # since repair F37 such a message can move the own counter, the copies' checks run before the per-ID lock, and a
+            # reply to a NON request draws own IDs - whether copy B's check sees the boundary crossed depends on how many IDs
+            # copy A has drawn by then (a scheduling matter the sequential model does not have)
+            near_guard = typ == "non" and abs(((mid - of) % 65536) - 16383) <= 96
+            if rng.random() < 0.15 and not near_guard:
                 k = rng.randint(2, 6)
                 ops.append("par %d %s %d %s %s" % (k, typ, mid, tok, beh))
                 cls.add("parallel-process")
